@@ -19,8 +19,11 @@ vars == <<l>>
 
 Validate(e) ==
   /\ e.e = "v"
-  /\ LET x == ErrFull(e.b) IN
-       /\ \A i \in 1..Len(e.all) : e.all[i] = x
+  /\ LET x == ErrFull(e.b)
+         y == ErrFullAlt(e.b)       \* differs from x only when two rules are violated at once
+     IN
+       /\ \/ \A i \in 1..Len(e.all) : e.all[i] = x
+          \/ \A i \in 1..Len(e.all) : e.all[i] = y    \* all engines still agree with each other
        /\ Len(e.all) >= 3
        /\ e.r = x[1]
 
